@@ -17,6 +17,7 @@ import (
 	"fmt"
 	"sort"
 	"strings"
+	"time"
 
 	mux "github.com/cbeuw/Cloak/internal/multiplex"
 	"github.com/cbeuw/Cloak/internal/server"
@@ -134,6 +135,40 @@ func (x *c15rx) cleanup(i int) {
 	for _, c := range x.cur {
 		if c.rec == p.rec && c.killedBy == "" && c.sesh.IsClosed() {
 			c.killedBy = fmt.Sprintf("error path of the refused connection (uid %d, sid %d): %s", p.uid, p.sid, which)
+		}
+	}
+}
+
+// cleanupParked runs pending clean-up 0 on its own goroutine while the harness holds usageUpdateQueueM: if the clean-up
+// decides to terminate the record, it parks at the first lock of TerminateActiveUser, i.e. right after its own sessionsM
+// section. `between` runs while it is parked; then the lock is released and the termination completes.
+func (x *c15rx) cleanupParked(between func()) {
+	p := x.pending[0]
+	x.pending = x.pending[1:]
+	release := x.rig.panel.HoldQueueLock()
+	fin := make(chan struct{})
+	which := ""
+	go func() { which = server.VerifRefusedCleanup(p.u, p.sid); close(fin) }()
+	pollUntil(10*time.Second, func() bool {
+		return isDone(fin) || inMutexWait(dumpAll(), "(*userPanel).updateUsageQueueForOne", "sync.(*Mutex).Lock")
+	})
+	x.nClean++
+	if isDone(fin) { // it did not terminate anything: nothing to interleave with
+		release()
+		x.o.T(fmt.Sprintf("sess.refusedCleanup rec=%d sid=%d", p.rec, p.sid), "terminate=0 "+x.rig.stateLine())
+		return
+	}
+	x.o.T(fmt.Sprintf("sess.refusedCleanupLocked rec=%d sid=%d", p.rec, p.sid), "terminate=1")
+	x.steps = append(x.steps, fmt.Sprintf("the refused connection (uid %d, sid %d) runs the sessionsM section of its error path on record %d and decides to terminate it; it is parked before TerminateActiveUser", p.uid, p.sid, p.rec))
+	between()
+	release()
+	<-fin
+	x.nTerm++
+	x.o.T(fmt.Sprintf("sess.terminate rec=%d", p.rec), x.rig.stateLine())
+	x.steps = append(x.steps, fmt.Sprintf("the refused connection's TerminateActiveUser(record %d) completes (%s)", p.rec, which))
+	for _, c := range x.cur {
+		if c.rec == p.rec && c.killedBy == "" && c.sesh.IsClosed() {
+			c.killedBy = fmt.Sprintf("error path of the refused connection (uid %d, sid %d): %s, termination of the record it had found empty", p.uid, p.sid, which)
 		}
 	}
 }
@@ -273,6 +308,25 @@ func c15refusedScripted(c *ctx) {
 	x.admit("C", 1, 2)
 	x.cleanup(0)
 	x.admit("D", 1, 2)
+	x.finish()
+
+	// 5. refused FIRST connection racing with a sibling: A finds the record empty and is about to terminate it; the admin
+	// raises the cap; sibling B arrives before A's TerminateActiveUser. B must not be given a session that A then destroys:
+	// the repaired helper retires the record in the critical section in which it finds it empty, so B is sent back to the lookup
+	x = newC15rx(c, "empty-record-race")
+	u = &c15user{uid: 1, cap: 0, up: 5000, down: 5000, expiry: 5000}
+	x.put(u)
+	x.admit("A", 1, 3)
+	before := x.nAttach
+	x.cleanupParked(func() {
+		u.cap = 2
+		x.put(u)
+		x.admit("B", 1, 3)
+	})
+	if x.nAttach == before {
+		x.admit("B-again", 1, 3) // B was told "retired": the dispatcher looks the user up again
+	}
+	x.admit("C", 1, 3)
 	x.finish()
 }
 
